@@ -6,9 +6,12 @@ open Driver Driver.TxCommon HyperModel.Tx HyperModel.Token
 
 def rules : Rules := {}
 
-/-- sum of the (well-formed) balance records over the key universe -/
+/-- the account of a balance key `[3] ++ addr ++ [0, 1]` -/
+def addrOfKey (k : Key) : Addr := (k.drop 1).take (k.length - 3)
+
+/-- the model's `total` over the accounts of the key universe -/
 def sumOf (univ : List Key) (m : Store) : Nat :=
-  (univ.eraseDups.map fun k => match m k with | none => 0 | some v => (decU64 v).getD 0).sum
+  total m (univ.eraseDups.map addrOfKey)
 
 def parseTransfer (s : String) : Option Transfer :=
   match splitC s ":" with
@@ -38,8 +41,19 @@ def step (s : St) (ws : List String) : St × String :=
       let sc := scopeOf (trs.flatMap fun t => [(bkey actor, permWrite), (bkey t.to, permAll)])
                   [(bkey sponsor, permWrite)]
       let (b', o) := processTxB rules .morpheus prices now sc tx s.blk
-      ({ s with blk := b' }, outcomeString s.univ b'.visible o ++ s!" sum={sumOf s.univ b'.visible} diff=" ++ diffString s.univ b')
+      let done := match o with | .done _ => true | _ => false
+      ({ (s.push prices now sc tx done) with blk := b' }, outcomeString s.univ b'.visible o ++ s!" sum={sumOf s.univ b'.visible} diff=" ++ diffString s.univ b')
     | _, _, _, _, _, _, _, _ => (s, "bad-op")
+  | ["block"] =>
+    if !s.live then (s, "bad-op") else
+    let out := blockString rules s
+    if s.mixed then (s, out) else
+    let oks := (s.txs.filter fun x => x.2.2).map fun x => (x.1, x.2.1)
+    let sum := match processorBlock rules .morpheus (s.prices.getD zeroUnits) s.now defaultMaxUnits oks
+        ({ parent := s.blk.parent }, zeroUnits) with
+      | .ok (st, _) => toString (sumOf s.univ st.1.visible)
+      | .error _ => "-"
+    (s, out ++ " sum=" ++ sum)
   | _ => (s, "bad-op")
 
 def machine : Machine := { σ := St, init := {}, step := step }
